@@ -46,12 +46,12 @@ func (c20) Mandatory(tier string) []string {
 		}
 	}
 	for _, op := range []string{"Copy", "Move"} {
-		for _, f := range []string{"missing-source", "dest-occupied", "dest-occupied-control", "dest-missing", "dest-is-file"} {
+		for _, f := range []string{"missing-source", "missing-control-file", "dest-occupied", "dest-occupied-control", "dest-missing", "dest-is-file"} {
 			m = append(m, "fault:"+op+":"+f)
 		}
 	}
 	return append(m, "fault:Copy:control-copy-cut-short", "fault:Remove:missing-source", "k:0", "k:1", "k:2+", "order:copy-control-after-all-closed", "order:move-control-last",
-		"order:remove-control-last", "hostile:../secret.txt", "hostile:sub/../../secret.txt", "hostile:../../other/o.txt", "hostile:/abs/x", "hostile:sub/inner.txt", "inotify-events-seen")
+		"order:remove-control-last", "hostile:../secret.txt", "hostile:sub/../../secret.txt", "hostile:../../other/o.txt", "hostile:/abs/x", "hostile:sub/inner.txt", "inotify-events-seen", "dest-has-longer-files-of-the-same-names")
 }
 
 type c20Case struct {
@@ -59,6 +59,7 @@ type c20Case struct {
 	Handle string   `json:"handle"`
 	Names  []string `json:"names"` // listed names, in order
 	Fault  string   `json:"fault"` // none | missing-source:i | dest-occupied:i | dest-missing | dest-is-file | control-copy-cut-short
+	Pre    bool     `json:"pre,omitempty"` // the destination already holds (longer) files of the same names
 	Seed   uint64   `json:"seed"`
 }
 
@@ -142,6 +143,7 @@ func (p c20) run(c *core.C, t *core.T, cs c20Case) {
 		if fidx < len(cs.Names) {
 			os.Remove(filepath.Join(src, cs.Names[fidx]))
 		}
+		// fidx == len(Names): the control file itself disappears after it was parsed (see below)
 	case "dest-occupied":
 		name := ctlName
 		if fidx < len(cs.Names) {
@@ -172,6 +174,17 @@ func (p c20) run(c *core.C, t *core.T, cs c20Case) {
 			return
 		}
 		up, filename = ch, func() string { return ch.Filename }
+	}
+	if fkind == "missing-source" && fidx >= len(cs.Names) {
+		os.Remove(ctlPath)
+	}
+	if cs.Pre { // a re-upload: longer files of the same names are already there
+		for _, n := range append([]string{ctlName}, cs.Names...) {
+			if plain(n) {
+				write(filepath.Join(dst, n), 12000+r.Intn(3000))
+			}
+		}
+		c.Cover("dest-has-longer-files-of-the-same-names")
 	}
 	before := snapshot(base)
 	ino, ierr := core.NewInotify()
@@ -259,9 +272,12 @@ func (p c20) run(c *core.C, t *core.T, cs c20Case) {
 			c.Failf("%s(%s) failed without an injected fault: %v (names %q)", cs.Op, cs.Handle, opErr, cs.Names)
 		}
 		if cs.Op != "Remove" {
-			if h, ok := after[ctlRelDst]; ok && h != "dir" {
+			if h, ok := after[ctlRelDst]; ok && h != "dir" && !(cs.Pre && h == before[ctlRelDst]) {
 				c.Failf("%s(%s) returned an error (%v) but the control file is in the destination (%d bytes there; fault %s, names %q)", cs.Op, cs.Handle, opErr, fileSize(filepath.Join(base, ctlRelDst)), cs.Fault, cs.Names)
 			}
+		}
+		if cs.Op != "Remove" && cs.Pre && after[ctlRelDst] != before[ctlRelDst] {
+			// tolerated: the pre-existing control file of the earlier upload may have been replaced or removed
 		}
 		if cs.Op == "Move" && after[ctlRelSrc] != before[ctlRelSrc] {
 			c.Failf("Move(%s) failed (%v) but the control file is no longer intact at its source", cs.Handle, opErr)
@@ -312,6 +328,9 @@ func (p c20) run(c *core.C, t *core.T, cs c20Case) {
 		f := fkind
 		if fkind == "dest-occupied" && fidx >= len(cs.Names) {
 			f = "dest-occupied-control"
+		}
+		if fkind == "missing-source" && fidx >= len(cs.Names) {
+			f = "missing-control-file"
 		}
 		c.Cover("fault:" + cs.Op + ":" + f)
 	}
@@ -463,7 +482,7 @@ func (p c20) RunBatch(t *core.T, b core.Batch) {
 		switch b.Name {
 		case "ok":
 			k := i % 6
-			emit(c20Case{Op: op, Handle: h, Names: plainNames(r, k), Fault: "none", Seed: r.U64()})
+			emit(c20Case{Op: op, Handle: h, Names: plainNames(r, k), Fault: "none", Seed: r.U64(), Pre: i%4 == 3 && op != "Remove"})
 		case "fault":
 			k := 1 + i%5
 			names := plainNames(r, k)
@@ -471,7 +490,7 @@ func (p c20) RunBatch(t *core.T, b core.Batch) {
 			if op == "Remove" {
 				faults = []string{fmt.Sprintf("missing-source:%d", r.Intn(k))}
 			} else {
-				faults = []string{fmt.Sprintf("missing-source:%d", r.Intn(k)), fmt.Sprintf("dest-occupied:%d", r.Intn(k)), fmt.Sprintf("dest-occupied:%d", k), "dest-missing", "dest-is-file"}
+				faults = []string{fmt.Sprintf("missing-source:%d", r.Intn(k)), fmt.Sprintf("missing-source:%d", k), fmt.Sprintf("dest-occupied:%d", r.Intn(k)), fmt.Sprintf("dest-occupied:%d", k), "dest-missing", "dest-is-file"}
 				if op == "Copy" {
 					faults = append(faults, "control-copy-cut-short")
 				}
